@@ -128,6 +128,29 @@ def main(argv):
             mod.scale_case(case, i)
             case["scale"] = True
             LOG.n("large_cases")
+        dg = getattr(mod, "DEGEN", None)
+        if dg and i % 37 == 18 and isinstance(case, dict) and case.get(dg) is not None and not case.get("scale"):
+            # every 37th case (a prime again) is a DEGENERATE one: an empty sequence, rests only, signatures only, a single note,
+            # everything on one tick, ... -- legal inputs at the edge of every quantifier; the check may adjust its arguments
+            specs = case[dg] if isinstance(case[dg], list) else [case[dg]]
+            done = []
+            for k, sp in enumerate(specs):
+                if isinstance(sp, dict) and "notes" in sp and (k == 0 or (i // 37 + k) % 2 == 0):
+                    done.append(gen.degenerate(sp, i + 37 * k))
+            if done:
+                case["degenerate"] = done
+                if hasattr(mod, "degen_case"):
+                    mod.degen_case(case, i)
+                LOG.n("degenerate_cases")
+        dr = getattr(mod, "DRUMS", None)
+        if dr and i % 11 == 7 and isinstance(case, dict) and case.get(dr) is not None:
+            # every eleventh case is moved onto the drum channel 9 (and 15 / 10 / 8 for further channels): no operation of the
+            # twenty properties treats any channel specially
+            specs = case[dr] if isinstance(case[dr], list) else [case[dr]]
+            cm = gen.relabel_channels([sp for sp in specs if isinstance(sp, dict)], i)
+            if cm:
+                case["drum_channels"] = {str(k): v for k, v in cm.items()}
+                LOG.n("drum_channel_cases")
         ex = getattr(mod, "EXTREMES", None)
         if ex and i % 6 == 5 and isinstance(case, dict) and case.get(ex) is not None:
             # every sixth case is re-labelled to the ends of the legal ranges (channel 15, pitches 0 / 127, velocities 1 / 127)
